@@ -33,6 +33,7 @@ def check_config(ctx, cfg, sample_frac=1.0):
     mats = list(C.all_matrices(cfg["T"], cfg["NC"], cfg["D"], normalised=not cfg.get("Unnorm")))
     if sample_frac < 1.0:
         mats = ctx.rng.sample(mats, max(1, int(len(mats) * sample_frac)))
+    cfg = dict(cfg, salt=ctx.seed)
     traces = C.run_config(cfg, mats)
     judge(ctx, cfg, traces)
 
